@@ -660,6 +660,118 @@ def case_ethbad(c, out):
       out.fail("eth-malformed-accepted", "EthAddr(%r) returned %s" % (arg, v), cls=c.get("cls", "?"))
 
 
+_HEXDIGITS = set("0123456789abcdefABCDEF")
+
+
+def case_ethtext(c, out):
+  """Arbitrary text offered to EthAddr.  Judged only where every reading agrees: a text that splits on ':' (or on
+  '-') into exactly six groups must be rejected when some group is empty, exceeds 0xff or contains a
+  character that is not a hexadecimal digit ('+1', '0x', ' 1', '1_', a non-ASCII digit) -- IEEE 802 text forms have
+  no such group; when all six groups are 1..2 hex digits it must be accepted with exactly those octets."""
+  A, U = _mods()
+  text = c["text"]
+  out.nontrivial = True
+  for arg in ((text, text.encode("utf-8")) if c.get("both", True) else (text,)):
+    if isinstance(arg, bytes) and len(arg) == 6:
+      continue                      # six raw octets, not a text form
+    if isinstance(arg, str) and len(arg) == 6:
+      continue
+    r, v = _raises(A.EthAddr, arg)
+    for sep in (":", "-"):
+      groups = text.split(sep)
+      if len(groups) != 6:
+        continue
+      if sep == "-" and any(len(g) != 2 for g in groups):
+        break                       # POX documents xx-xx-xx-xx-xx-xx only; other dash forms are not judged
+      ok = all(1 <= len(g) <= 2 and set(g) <= _HEXDIGITS for g in groups)
+      if not ok and all(g and set(g) <= _HEXDIGITS and int(g, 16) <= 0xff for g in groups):
+        out.label("ethtext-ambiguous-not-judged")     # hex groups padded beyond two digits ('00f'): not judged
+        break
+      if ok:
+        out.label("ethtext-wellformed")
+        want = bytes(int(g, 16) for g in groups)
+        if r:
+          out.fail("eth-wellformed-rejected", "EthAddr(%r) raised %r" % (arg, v))
+        elif v.raw != want:
+          out.fail("eth-misparsed", "EthAddr(%r) = %s, the text says %s" % (arg, v, want.hex()))
+      else:
+        out.label("ethtext-group-not-hex-must-raise")
+        if not r:
+          out.fail("eth-malformed-accepted", "EthAddr(%r) returned %s" % (arg, v), cls="group-not-hex")
+      break
+    else:
+      if len(text) == 12 and ":" not in text and "-" not in text:
+        if set(text) <= _HEXDIGITS:
+          out.label("ethtext-wellformed")
+          if r:
+            out.fail("eth-wellformed-rejected", "EthAddr(%r) raised %r" % (arg, v))
+          elif v.raw != bytes.fromhex(text):
+            out.fail("eth-misparsed", "EthAddr(%r) = %s" % (arg, v))
+        else:
+          out.label("ethtext-group-not-hex-must-raise")
+          if not r:
+            out.fail("eth-malformed-accepted", "EthAddr(%r) returned %s" % (arg, v), cls="group-not-hex")
+      else:
+        out.label("ethtext-ambiguous-not-judged")
+
+
+def _inet_aton_ok(text):
+  import socket
+  try:
+    socket.inet_aton(text)
+    return True
+  except (OSError, ValueError, UnicodeError):
+    return False
+
+
+def case_cidrtext(c, out):
+  """'<address>/<suffix>' texts offered to parse_cidr (IPv4) or IPAddr6.parse_cidr.  <address> is a canonical
+  address with zero host part for every prefix (all-zero or given), so the only thing that can be wrong is the
+  suffix.  Authority: ipaddress.ip_network(text, strict=False) -- when it rejects the text (second '/', sign, blank,
+  non-ASCII digit, out-of-range or empty prefix) POX must reject it too; when it accepts a pure-digit prefix POX must
+  return that prefix.  Host-mask suffixes ('/0.0.0.255'), which ipaddress accepts and POX documents as unsupported,
+  are not judged."""
+  A, U = _mods()
+  fam, text = c["fam"], c["text"]
+  out.nontrivial = True
+  fn = A.parse_cidr if fam == 4 else A.IPAddr6.parse_cidr
+  r, v = _raises(fn, text, allow_host=True)
+  try:
+    ref = ipaddress.ip_network(text, strict=False)
+    if ref.version != fam:
+      ref = None
+  except ValueError:
+    ref = None
+  suffix = text.split("/", 1)[1] if "/" in text else None
+  if suffix is None:
+    out.label("cidrtext-no-slash-not-judged")
+    return
+  if ref is None:
+    if fam == 4 and suffix.count(".") == 3 and "/" not in suffix:
+      out.label("cidrtext-mask-form-not-judged")    # dotted forms are judged by ip4cidr / ip4badmask
+      return
+    if fam == 6 and ":" in suffix and "/" not in suffix:
+      out.label("cidrtext-mask-form-not-judged")
+      return
+    if fam == 4 and "/" not in suffix and _inet_aton_ok(suffix):
+      # BSD inet_aton forms of a netmask ('0 ', '255.0', '0xff000000'): the IPv4 text zone that is not judged
+      # (see _IP4_AMBIG); POX documents 'address/netmask' and reads the netmask with IPAddr()
+      out.label("cidrtext-mask-form-not-judged")
+      return
+    out.label("cidrtext-must-raise")
+    if not r:
+      out.fail("cidr-malformed-accepted", "%s.parse_cidr(%r) returned %r; ipaddress rejects the text" % (
+          "IPAddr6" if fam == 6 else "addresses", text, v), fam=fam, cls=c.get("cls", "?"))
+  elif suffix.isascii() and suffix.isdigit():
+    out.label("cidrtext-both-accept")
+    if r:
+      out.fail("cidr-wellformed-rejected", "parse_cidr(%r) raised %r" % (text, v), fam=fam)
+    elif v[1] != ref.prefixlen:
+      out.fail("cidr-misparsed", "parse_cidr(%r) = %r, ipaddress says /%d" % (text, v, ref.prefixlen), fam=fam)
+  else:
+    out.label("cidrtext-mask-form-not-judged")
+
+
 # --------------------------------------------------------------------------- comparison laws, dpids
 
 def case_cmp(c, out):
@@ -840,7 +952,7 @@ _CASES = {
   "ip6": case_ip6, "ip6text": case_ip6text, "ip6bad": case_ip6bad, "ip6net": case_ip6net,
   "ip6cidr": case_ip6cidr, "ip6badmask": case_ip6badmask,
   "eth": case_eth, "ethnone": case_ethnone, "ethbad": case_ethbad, "cmp": case_cmp, "cmpforeign": case_cmpforeign, "cmpcross": case_cmpcross,
-  "dpid": case_dpid, "dpidbad": case_dpidbad,
+  "dpid": case_dpid, "dpidbad": case_dpidbad, "ethtext": case_ethtext, "cidrtext": case_cidrtext,
 }
 
 
@@ -1061,6 +1173,41 @@ def enum_eth(tier):
     yield {"k": "ethbad", "text": t, "cls": cls}
 
 
+_CIDR_SUFFIX_BAD = [("8/junk", "second-slash"), ("8/", "second-slash"), ("8/8", "second-slash"), ("/8", "second-slash"),
+                    ("+8", "sign"), ("-1", "sign"), ("-0", "sign"), (" 8", "blank"), ("8 ", "blank"), ("\t8", "blank"), ("8\n", "blank"),
+                    ("", "empty"), ("\u0668", "non-ascii-digit"), ("\uff18", "non-ascii-digit"), ("1_0", "underscore"), ("0x8", "radix"),
+                    ("8.0", "fraction"), ("1e1", "fraction"), ("eight", "word")]
+
+
+def enum_textforms(tier):
+  """curated + structural text classes for EthAddr and the two parse_cidr functions"""
+  base = ["1", "2", "3", "4", "5", "6"]
+  for pos in range(6):
+    for g in _NOT_HEX_GROUPS + ["", "100", "0f0", "fff"]:
+      groups = list(base)
+      groups[pos] = g
+      yield {"k": "ethtext", "text": ":".join(groups)}
+      two = ["0" + x for x in base]
+      two[pos] = g
+      yield {"k": "ethtext", "text": ":".join(two)}
+      if len(g) == 2:
+        yield {"k": "ethtext", "text": "-".join(two)}
+        yield {"k": "ethtext", "text": "".join(two)}
+  for t in ("1:2:3:4:5:6", "01:02:03:04:05:06", "a:B:c:D:e:F", "0a-0b-0c-0d-0e-0f", "0a0b0c0d0e0f", "1:2:3:4:5:6 ", " 1:2:3:4:5:6",
+            "+1:+2:+3:+4:+5:+6", "+1+2+3+4+5+6", " 1 2 3 4 5 6", "0x0x0x0x0x0x", "1_2_3_4_5_"):
+    yield {"k": "ethtext", "text": t}
+  for fam, addrs in ((4, ["0.0.0.0", "10.0.0.0", "128.0.0.0"]), (6, ["::", "fe80::", "8000::"])):
+    top = 32 if fam == 4 else 128
+    for a in addrs:
+      for sfx, cls in _CIDR_SUFFIX_BAD:
+        yield {"k": "cidrtext", "fam": fam, "text": a + "/" + sfx, "cls": cls}
+      for n in (0, 1, 8 if a not in ("128.0.0.0", "8000::") else 1, top + 1, top + 2, 256, 1000, 10 ** 12):
+        yield {"k": "cidrtext", "fam": fam, "text": "%s/%d" % (a, n), "cls": "number"}
+      for n in (1, 8):
+        yield {"k": "cidrtext", "fam": fam, "text": "%s/%02d" % (a, n), "cls": "leading-zero"}
+        yield {"k": "cidrtext", "fam": fam, "text": "%s/%s" % (a, "0" * 40 + str(n)), "cls": "leading-zero"}
+
+
 def enum_cmp(tier):
   v4 = [n.to_bytes(4, "big") for n in (0, 1, 2, 0x100, 0x01000000, 0x02000000, 0x7fffffff, 0x80000000, 0xffffffff, 0xff, 0x80)]
   for a, b, c in itertools.product(v4, repeat=3):
@@ -1107,7 +1254,8 @@ def enum_dpid(tier):
 
 def _all_enum(tier):
   return itertools.chain(enum_ip4(tier), enum_ip4net(tier), enum_ip4text(tier), enum_ip6(tier), enum_ip6bad(tier),
-                         enum_ip6net(tier), enum_eth(tier), enum_cmp(tier), enum_cmpcross(tier), enum_dpid(tier))
+                         enum_ip6net(tier), enum_eth(tier), enum_cmp(tier), enum_cmpcross(tier), enum_dpid(tier),
+                         enum_textforms(tier))
 
 
 # --------------------------------------------------------------------------- Hypothesis strategies
@@ -1197,7 +1345,36 @@ def _strategy(tier):
         lambda t: st.sampled_from(_FOREIGN).map(lambda o: {"k": "cmpforeign", "t": t[0], "a": t[1], "o": o})),
     st.tuples(_u(64), st.booleans()).map(lambda t: {"k": "dpid", "v": t[0], "long": t[1]}),
     _s_cmpcross(),
+    _s_ethtext(), _s_cidrtext(),
   )
+
+
+def _s_ethtext():
+  """six groups joined by ':' (sometimes '-' or nothing); each group is 1..2 hex digits or, for one or two of them, a
+  decorated / foreign group -- so both verdict classes (must accept with exact octets, must reject) are common"""
+  good = st.one_of(st.integers(0, 255).map(lambda v: "%x" % v), st.integers(0, 255).map(lambda v: "%02x" % v),
+                   st.integers(0, 255).map(lambda v: "%02X" % v))
+  bad = st.one_of(st.sampled_from(_NOT_HEX_GROUPS + ["", "100", "fff"]),
+                  st.tuples(st.sampled_from(["+", "0x", " ", "\t", "_", "-"]), good).map(lambda t: t[0] + t[1]),
+                  st.tuples(good, st.sampled_from([" ", "\n", "_", "\u0660", "h"])).map(lambda t: t[0] + t[1]))
+  def build(t):
+    groups, nbad, positions, bads, sep = t
+    g = list(groups)
+    for i in range(nbad):
+      g[positions[i] % 6] = bads[i]
+    return {"k": "ethtext", "text": sep.join(g)}
+  return st.tuples(st.lists(good, min_size=6, max_size=6), st.sampled_from([0, 0, 1, 1, 1, 2]), st.lists(st.integers(0, 5), min_size=2, max_size=2),
+                   st.lists(bad, min_size=2, max_size=2), st.sampled_from([":", ":", ":", "-", ""])).map(build)
+
+
+def _s_cidrtext():
+  digits = st.one_of(st.integers(0, 140).map(str), st.integers(0, 140).map(lambda n: "%03d" % n))
+  deco = st.one_of(st.sampled_from([s for s, _ in _CIDR_SUFFIX_BAD]),
+                   st.tuples(st.sampled_from(["+", "-", " ", "\t", "0x", "_"]), digits).map(lambda t: t[0] + t[1]),
+                   st.tuples(digits, st.sampled_from([" ", "\n", "/", "/8", "_", "\u0660", "."])).map(lambda t: t[0] + t[1]),
+                   digits, digits)
+  return st.tuples(st.sampled_from([(4, "0.0.0.0"), (4, "10.0.0.0"), (6, "::"), (6, "fe80::")]), deco).map(
+      lambda t: {"k": "cidrtext", "fam": t[0][0], "text": t[0][1] + "/" + t[1]})
 
 
 def _s_ip6_decorated():
